@@ -307,14 +307,14 @@ func (bucket *Bucket) dropCollection(name sgbucket.DataStoreNameImpl) error {
 	if bucket.closed {
 		return ErrBucketClosed // a closed handle must not stop the collection's feeds either
 	}
-	if c := bucket.collections[name]; c != nil {
-		c.close()
-		delete(bucket.collections, name)
-	}
-
+	// (first the row: a drop that fails must not have ended the collection's feeds)
 	_, err := bucket._db().Exec(`DELETE FROM collections WHERE scope=? AND name=?`, name.ScopeName(), name.CollectionName())
 	if err != nil {
 		return err
+	}
+	if c := bucket.collections[name]; c != nil {
+		c.close()
+		delete(bucket.collections, name)
 	}
 	return nil
 }
